@@ -359,6 +359,6 @@ func c02PartB(k *fw.K, i int) {
 
 func runC02(c *fw.Ctx) {
 	c.Cases(15, func(i int) string { return fmt.Sprintf("partA|block=%d", i) }, func(i int, k *fw.K) { c02PartA(k, i) })
-	n := c.Pick(240, 2400)
+	n := c.Pick(240, 24000)
 	c.Cases(n, func(i int) string { return fmt.Sprintf("partB|%s i=%d", c02Scenarios[i%len(c02Scenarios)], i) }, func(i int, k *fw.K) { c02PartB(k, i) })
 }
